@@ -31,6 +31,20 @@ type StepRig struct {
 	DirectPost z80.States
 	DirectNote string
 	lastDirect int
+
+	// Limit != 0: the machine keeps no write at addresses >= Limit.  With
+	// LimitZero the space above reads 0 as well (exactly a z80.DumbMemory of
+	// length Limit, which Direct == 1 then uses); without it it holds bytes (ROM).
+	Limit     uint32
+	LimitZero bool
+}
+
+// SetLimit configures the unpopulated / read-only upper part of the address
+// space (0 switches it off) and rebuilds the base image.
+func (g *StepRig) SetLimit(limit uint32, zero bool) {
+	g.Limit, g.LimitZero = limit, zero
+	g.EmuMem.ROFrom, g.RefMem.ROFrom = limit, limit
+	g.Refill(g.fillSeed)
 }
 
 // BreakChain makes the next Run start with a fresh CPU object.
@@ -49,6 +63,11 @@ func (g *StepRig) Refill(seed uint64) {
 	g.fillSeed = seed
 	g.EmuMem.Fill(seed)
 	g.RefMem.Fill(seed)
+	if g.Limit != 0 && g.LimitZero {
+		for a := g.Limit; a < 65536; a++ {
+			g.EmuMem.Data[a], g.RefMem.Data[a] = 0, 0
+		}
+	}
 	// the mirrors are rebuilt from the new base on next use
 	g.dm, g.mm = nil, nil
 	g.dTouched = [3][]uint16{}
@@ -60,13 +79,20 @@ func (g *StepRig) directRun(c *StepCase) (post z80.States, halt bool, pan interf
 	full := false
 	if g.Direct == 1 && g.dm == nil {
 		g.dm = make(z80.DumbMemory, 65536)
+		if g.Limit != 0 && g.LimitZero {
+			g.dm = make(z80.DumbMemory, g.Limit) // a short slice: above it reads 0, writes vanish
+		}
 		full = true
 	}
 	if g.Direct == 2 && g.mm == nil {
 		g.mm = make(z80.MapMemory, 65536)
 		full = true
 	}
-	set := func(a uint16, v uint8) { g.dm[a] = v }
+	set := func(a uint16, v uint8) {
+		if int(a) < len(g.dm) {
+			g.dm[a] = v
+		}
+	}
 	var mem z80.Memory = g.dm
 	if g.Direct == 2 {
 		set = func(a uint16, v uint8) { g.mm[a] = v }
@@ -74,7 +100,9 @@ func (g *StepRig) directRun(c *StepCase) (post z80.States, halt bool, pan interf
 	}
 	if full {
 		for a := 0; a < 65536; a++ {
-			set(uint16(a), g.EmuMem.Data[a])
+			if g.Direct == 2 || a < len(g.dm) {
+				set(uint16(a), g.EmuMem.Data[a])
+			}
 		}
 	} else {
 		for _, a := range g.dTouched[g.Direct] {
@@ -111,7 +139,7 @@ func (g *StepRig) directRun(c *StepCase) (post z80.States, halt bool, pan interf
 // directCompare compares the direct run with the monitored emulator run (same
 // code under test, only the memory's dynamic type differs).
 func (g *StepRig) directCompare(out *StepOutcome, post z80.States, halt bool, pan interface{}, mark int) {
-	get := func(a uint16) uint8 { return g.dm[a] }
+	get := func(a uint16) uint8 { return g.dm.Get(a) }
 	if g.Direct == 2 {
 		get = func(a uint16) uint8 { return g.mm[a] }
 	}
@@ -177,8 +205,18 @@ func inc7(r uint8) uint8 { return r&0x80 | (r+1)&0x7f }
 func (g *StepRig) Run(c *StepCase) (out StepOutcome) {
 	g.EmuMem.Reset()
 	g.RefMem.Reset()
-	g.EmuMem.Place(c.Pre.PC, c.Bytes...)
-	g.RefMem.Place(c.Pre.PC, c.Bytes...)
+	if g.Limit != 0 && g.LimitZero {
+		// nothing can be stored above the populated part: those bytes read 0
+		for k, b := range c.Bytes {
+			if a := c.Pre.PC + uint16(k); uint32(a) < g.Limit {
+				g.EmuMem.Place(a, b)
+				g.RefMem.Place(a, b)
+			}
+		}
+	} else {
+		g.EmuMem.Place(c.Pre.PC, c.Bytes...)
+		g.RefMem.Place(c.Pre.PC, c.Bytes...)
+	}
 	mark := g.EmuMem.Mark()
 	rmark := g.RefMem.Mark()
 	g.EmuIO.Reset(c.IOSeed)
@@ -368,6 +406,9 @@ func (g *StepRig) Witness(enc Encoding, c *StepCase, o *StepOutcome) map[string]
 		"pre_halt":           c.PreHALT,
 		"no_handlers":        c.NoHandlers,
 		"direct":             g.lastDirect,
+		"pending_refused":    c.PendingRefused,
+		"limit":              g.Limit,
+		"limit_zero":         g.LimitZero,
 		"handlers":           fmt.Sprintf("emu RETN=%d RETI=%d ref RETN=%d RETI=%d", g.RC.RETN, g.RC.RETI, g.Ref.RETN, g.Ref.RETI),
 	}
 	if o.Info.HasAlt {
